@@ -51,6 +51,8 @@ pub struct SourceFile {
     pub(crate) path: PathBuf,
     pub(crate) source_text: String,
     pub(crate) source: OnceLock<ariadne::Source>,
+    /// Cache for [`SourceFile::line_starts`]
+    pub(crate) line_starts: OnceLock<Vec<usize>>,
 }
 
 /// A map of source files relevant to a given document
@@ -176,6 +178,7 @@ impl Parser {
             path,
             source_text,
             source: OnceLock::new(),
+            line_starts: OnceLock::new(),
         });
         Arc::make_mut(&mut errors.sources).insert(file_id, source_file);
         for parser_error in tree.errors() {
@@ -431,6 +434,25 @@ impl SourceFile {
         &self.source_text
     }
 
+    /// Byte offsets of the start of each line, where lines are separated by a GraphQL
+    /// [_LineTerminator_](https://spec.graphql.org/October2021/#LineTerminator):
+    /// `\n`, `\r\n`, or `\r`
+    fn line_starts(&self) -> &[usize] {
+        self.line_starts.get_or_init(|| {
+            let bytes = self.source_text.as_bytes();
+            let mut starts = vec![0];
+            for (index, &byte) in bytes.iter().enumerate() {
+                match byte {
+                    b'\n' => starts.push(index + 1),
+                    // `\r\n` is a single terminator: the next line starts after the `\n`
+                    b'\r' if bytes.get(index + 1) != Some(&b'\n') => starts.push(index + 1),
+                    _ => {}
+                }
+            }
+            starts
+        })
+    }
+
     pub(crate) fn ariadne(&self) -> &ariadne::Source {
         self.source.get_or_init(|| {
             // FIXME This string copy is not ideal, but changing to a reference counted string affects
@@ -443,7 +465,19 @@ impl SourceFile {
     ///
     /// Returns None if the offset is out of bounds.
     pub fn get_line_column(&self, offset: usize) -> Option<LineColumn> {
-        let (_, zero_indexed_line, zero_indexed_column) = self.ariadne().get_byte_line(offset)?;
+        let bytes = self.source_text.as_bytes();
+        if offset > bytes.len() {
+            return None;
+        }
+        let line_starts = self.line_starts();
+        // The last line that starts at or before `offset`. `line_starts[0] == 0` so there is one.
+        let zero_indexed_line = line_starts.partition_point(|&start| start <= offset) - 1;
+        let line_start = line_starts[zero_indexed_line];
+        // Count characters, not bytes: every byte that is not a UTF-8 continuation byte starts one
+        let zero_indexed_column = bytes[line_start..offset]
+            .iter()
+            .filter(|&&byte| (byte & 0b1100_0000) != 0b1000_0000)
+            .count();
         Some(LineColumn {
             line: zero_indexed_line + 1,
             column: zero_indexed_column + 1,
@@ -466,6 +500,7 @@ impl std::fmt::Debug for SourceFile {
             path,
             source_text,
             source: _, // Skipped: it’s a cache and would make debugging other things noisy
+            line_starts: _, // Skipped: same
         } = self;
         let mut debug_struct = f.debug_struct("SourceFile");
         debug_struct.field("path", path);
